@@ -1,6 +1,6 @@
 (* Correspondence checker for C08: what the Go extension methods were observed
    to do, compared with Model/Ext.v. *)
-From UV Require Export Base.Common Model.Wire Model.Varint Model.Ext.
+From UV Require Export Base.Common Model.Wire Model.Varint Model.Ext Model.ExtObj.
 
 (* outcome of Read(b): (n, io.EOF) with b[:n] | (0, err) with the error's code | panic *)
 Inductive robs := ROk (b : bytes) | RErr (code : N) | RPanic.
@@ -13,7 +13,9 @@ Inductive case :=
 | CRead (e : ext) (n : N) (golen : option N) (o : robs)
 (* real = true: the UtlsPreSharedKeyExtension choice of ReadTLSExtensions for id 41.
    For GREASE ECH the runner zeroes config id, encapsulated key and payload in the observed bytes. *)
-| CWrite (real : bool) (id : N) (body : bytes) (o : wobs).
+| CWrite (real : bool) (id : N) (body : bytes) (o : wobs)
+(* an object encoded once as `first`, whose exported fields were then edited to `cur` *)
+| CReadObj (first cur : ext) (n : N) (golen : option N) (o : robs).
 
 Definition robs_matches (r : res bytes) (o : robs) : bool :=
   match r, o with
@@ -30,6 +32,12 @@ Definition check (c : case) : bool :=
       match golen with
       | Some l => ext_len e =? l
       | None => is_panic (ext_read e n)
+      end
+  | CReadObj first cur n golen o =>
+      robs_matches (obj_read first cur n) o &&
+      match golen with
+      | Some l => obj_len first cur =? l
+      | None => is_panic (obj_read first cur n)
       end
   | CWrite real xid body o =>
       match (if real then ext_write_realpsk xid body else ext_write xid body), o with
